@@ -188,6 +188,14 @@ Section World.
     intros eps aeps deps tin i fx gs H g s b f. unfold DieInput.die_in_with_cover.
     destruct (resolve i) eqn:E; try discriminate. exfalso. apply (H t). reflexivity.
   Qed.
+  (* what was constructed before does not matter *)
+  Theorem construction_independent : forall before c after,
+    nth_error (construct_all file_of yaml_load (before ++ c :: after)) (List.length before) =
+    Some (construct file_of yaml_load c).
+  Proof.
+    intros before c after. unfold construct_all. rewrite map_app. cbn [map].
+    rewrite nth_error_app2; rewrite map_length; [|lia]. rewrite Nat.sub_diag. reflexivity.
+  Qed.
 End World.
 
 (* the dispatch of a str: what each of the three readings needs *)
